@@ -5,7 +5,7 @@
 
 #[cfg(feature = "verif")]
 #[allow(unused_imports)]
-use qbice_verif_rt::{parking_lot, std};
+use qbice_verif_rt::parking_lot;
 
 use std::{
     collections::{BinaryHeap, HashSet},
